@@ -264,7 +264,7 @@ def malformed(rng, base_desc):
     return b"\n".join(lines), "swapped-lines"
 
 def long_texts(rng, tier):
-    big = 20000 if tier == "quick" else 60000
+    big = 40000 if tier == "quick" else 100000
     out = []
     q = b"q"
     out.append(HEADER + b"a -> " + b"q" * big + b"\n")                                   # long parent
